@@ -16,6 +16,13 @@ typedef unsigned long long u64_t;
 
 #define setbytes(b0, b1, b2, b3) \
   ((u32_t)b0) | ((u32_t)b1 << 8) | ((u32_t)b2 << 16) | ((u32_t)b3 << 24)
+// verification hook (only with -DWENCRY_VERIF): observe the working state after every round
+#ifdef WENCRY_VERIF
+extern "C" void wencry_verif_round(int alg, unsigned round, unsigned *state);
+#define WENCRY_VERIF_ROUND(alg, round, state) wencry_verif_round(alg, round, state)
+#else
+#define WENCRY_VERIF_ROUND(alg, round, state)
+#endif
 class Hashmaster
 {
   u8_t hashblock[64];
